@@ -307,6 +307,12 @@ def rule_flags(rep):
     for i in tmp.instances:
         if any(("::%s(" % k) in i["function"] for k in keep):
             rep.instances.append(i)
+    # has_value() of a proxy is a bit reference into the flag storage: assigning through it must copy the SOURCE's flag
+    tmp2 = Report("C11", rep.tier, rep.level, "")
+    c03.rule_helpers(tmp2, inst, "C11.flags")
+    for i in tmp2.instances:
+        if i["function"].startswith("xbitset_reference"):
+            rep.instances.append(i)
     rep.unit("flag storage xdynamic_bitset<unsigned long>: %d instances from C03's block/size rules" % (len(rep.instances) - before))
 
 
